@@ -339,6 +339,11 @@ class C16:
         raises = [n for n in g.nodes if n.kind == "stmt" and isinstance(n.ast, ast.Raise) and "CloudTokenError" in ast.unparse(n.ast)]
         good = bool(raises) and all(has_fact(ctx.facts(f).facts(r), "self.connection_id == $N", False) and fact_in(ctx.facts(f).facts(r), "self.connection_id", True) for r in raises)
         rep.check("C16.P5", "connect|mismatch", f, good, "raise under `connection_id set and != new id`", "connect() no longer rejects credentials of a different account")
+        disc = lambda n: node_has_call(n, "self.disconnect()")   # noqa: E731
+        pthd = g.reach([g.entry.id], lambda n: n in raises, avoid=disc, follow=NORMAL)
+        rep.check("C16.P5", "connect|refusal-disconnects", f, bool(raises) and pthd is None, "disconnect() before the refusal is raised",
+                  "connect() refuses the other identity but leaves the provider connected: connect_impl has already switched the session, so the provider keeps "
+                  "serving the other account under the original connection id", witness=describe_path(pthd) if pthd else None)
         setc = [n for n in g.nodes if node_stores_attr(n, "__connected", "True")]
         tests = [n for n in g.nodes if n.kind == "test" and pat.match("self.connection_id != $N", n.ast) is not None]
         pth = g.reach([g.entry.id], lambda n: n in setc, avoid=lambda n: n.kind == "test" and any(isinstance(x, ast.Attribute) and x.attr == "connection_id" for x in ast.walk(n.ast)), follow=NORMAL)
